@@ -19,7 +19,7 @@ POOLS = {
     "tiny":    ["1e-150", "1e-160", "1e-170", "1e-300", "1e-323", "5e-324"],
     "mixed":   ["0.9", "0.5", "0.3", "0.25", "0.1", "1e-160", "5e-324"],
 }
-POOL_NAMES = ["dyadic", "decimal", "tie", "normalised", "mixed", "tiny"]
+POOL_NAMES = ["dyadic", "decimal", "tie", "normalised", "mixed", "tiny", "ratio"]
 
 ALPHA_CHARS = "abcxyz"
 SPECIAL_ALPHA = ["é", "ф", "α", "ñ", "ß", "ŉ", "ﬁ", "ǆ"]   # 1:1 case maps, plus letters whose upper() is 2 characters
@@ -33,6 +33,13 @@ CONTEXT = ["<3", ";p", "#1", "*0*", ":)"]
 
 def _descending_probs(t, pool, k):
     """k strictly descending probability strings"""
+    if pool == "ratio":
+        # small integer counts over a small total: 3/6*2/5 and 2/6*3/5 are equal as rationals, not always as doubles
+        menu = [6, 4, 3, 2, 1]
+        start = t.draw(len(menu) - min(k, len(menu)) + 1)
+        counts = menu[start:start + min(k, len(menu))]
+        total = sum(counts) + t.choice([0, 0, 1, 3])
+        return [repr(c / total) for c in counts]
     if pool == "normalised":
         counts = sorted({t.between(1, 12) for _ in range(k + 2)}, reverse=True)
         while len(counts) < k:
@@ -88,7 +95,13 @@ def gen_variable(t, name, pool, max_groups=4, max_group_size=3, hostile=False):
     ngroups = t.between(1, max_groups)
     if kind in "KYX":
         ngroups = min(ngroups, 3)
-    probs = _descending_probs(t, pool, ngroups)
+    if ngroups > 6:
+        # more than a handful of groups: strictly descending relative frequencies
+        counts = sorted({t.between(1, 60) for _ in range(ngroups * 2)}, reverse=True)[:ngroups]
+        total = sum(counts) + t.between(0, 9)
+        probs = [repr(c / total) for c in counts]
+    else:
+        probs = _descending_probs(t, pool, ngroups)
     used = set()
     groups = []
     for p in probs:
@@ -156,10 +169,14 @@ TRIVIAL_OMEN = {"ngram": 2, "alphabet": ["a", "b"], "ip": [[0, "a"], [1, "b"]],
 
 
 def gen_syn(t, allow_m=True, max_pts=600, hostile=False, force_m=False, omen=None,
-            pools=None, max_structs=4, max_vars=4, menu=None):
+            pools=None, max_structs=4, max_vars=4, menu=None, big=False):
     """Synthetic ruleset spec."""
     pool = t.choice(pools or POOL_NAMES)
     nvars = t.between(1, 6)
+    if big:
+        # variables with 11-14 groups (two-digit group indices) and label pairs such as D2 / D21, A1 / A11
+        menu = ["D2", "D21", "A1", "A11", "D1", "D12", "O1", "O11"]
+        nvars = t.between(2, 4)
     names = []
     for _ in range(nvars):
         v = (menu or VAR_MENU)[t.draw(len(menu or VAR_MENU))]
@@ -167,7 +184,7 @@ def gen_syn(t, allow_m=True, max_pts=600, hostile=False, force_m=False, omen=Non
             names.append(v)
     variables = {}
     for v in names:
-        variables[v] = gen_variable(t, v, pool, hostile=hostile)
+        variables[v] = gen_variable(t, v, pool, hostile=hostile, max_groups=14 if (big and v[0] in "DO" and len(v) == 2) else 4)
         if v[0] == "A":
             variables["C" + v[1:]] = gen_variable(t, "C" + v[1:], pool, max_groups=3, max_group_size=2)
     has_m = force_m or (allow_m and t.chance(1, 3))
